@@ -208,8 +208,9 @@ theorem onPublish_content (b : B) (m : Msg) :
   split at h
   · simp at h
   · obtain ⟨r1, r2, _⟩ := retainStep_content b m
+    rw [fanoutLive_outs] at h
     have := fanout_content _ _ _ d w h
-    rw [r1, r2] at this
+    rw [(loopMsg_content _).1, (loopMsg_content _).2.1, r1, r2] at this
     exact this
 
 /-! ### a live subscriber gets the message -/
@@ -280,11 +281,13 @@ theorem onPublish_delivers (b : B) (m : Msg) (d : Nat) (hd : d < cbBase) (ha : b
   have hsub' : (retainStep b m).1.topics.subscribers (retainStep b m).2.p.topic (retainStep b m).2.p.qos
       = some subs := by
     rw [r1, r3, subscribers_congr fr.sroot]; exact hsub
-  obtain ⟨w, hw⟩ := fanout_delivers (retainStep b m).1 (retainStep b m).2 subs d q hd
-    (by rw [alive_congr fr.conns]; exact ha) (by rw [r1]; exact ht) hm
+  obtain ⟨w, hw⟩ := fanout_delivers (retainStep b m).1
+    (if (retainStep b m).2.p.retain then (retainStep b m).2.setRetain false else (retainStep b m).2) subs d q hd
+    (by rw [alive_congr fr.conns]; exact ha) (by rw [(loopMsg_content _).1, r1]; exact ht) hm
   have : Out.send d (.publish w) ∈ (onPublish b m).2.2.1 := by
     unfold onPublish
     simp only [hsub']
+    rw [fanoutLive_outs]
     exact hw
   intro hnil
   have := mem_pubsTo.mpr this
